@@ -66,8 +66,8 @@ PROPS = {
         trusted=['decode(): a single call into the percent-encoding crate; its contract dec (percent-decode + strict UTF-8) and "a non-empty piece decodes to a non-empty string" are assumed (A: bounded replay)', 'std trim_matches / split / rsplit_once / split_once contracts (A: bounded replay)', 'a user-written PurlShape may overwrite namespace / subpath in its hook: the statement is read for the built-in type parameters']),
     'C08': dict(level='other', groups=['lib_lower', 'pkgtype', 'builder', 'parse'], kani=['package_type_names'], bounded=['pkgrules', 'lower', 'tokens:C08', 'scale:C08'] + A,
         explanation='Proved for all strings and all seven variants (Verus): nuget name = Unicode lower-casing (lower_seq), pypi name = pypi_norm written from the statement, maven refused iff the namespace has no significant segment, every other field untouched (frame), parser and builder both end in build() which applies the hook once. Unicode tables validated exhaustively (A). BOUNDED: unknown-type refusal (phf / unicase lookup), cross-checks on every scalar value.'),
-    'C09': dict(level='other', groups=['builder', 'qual', 'pkgtype', 'purl', 'fmt', 'inverse'], kani=ESC, bounded=['builder', 'format:C09', 'preds', 'shapes', 'pkgrules', 'lower'] + A,
-        explanation='Proved (Verus): every setter sets its field and leaves every other field unchanged (frames => override and commutation), with_qualifier accepts exactly valid keys with the whole-content postcondition of insert, build() succeeds / fails as stated (build_post), Display == canon_spec. ALSO proved (group inverse): parsing canon_spec of normalised parts returns those parts (lemma_parse_canon). BOUNDED: the same for parts that are not normalised (insignificant namespace / subpath segments set through the builder) and end to end on the compiled code -- all call sequences of length <= 2 / 3 over a value universe, and every scalar value in every field.'),
+    'C09': dict(level='proof', groups=['builder', 'qual', 'pkgtype', 'purl', 'fmt', 'inverse', 'c01', 'ckfix'], kani=ESC, bounded=['builder', 'format:C09', 'preds', 'shapes', 'pkgrules', 'lower'] + A,
+        explanation='THEOREM (group c01, theorem_c09_plain / theorem_c09_typed, on lemma_parse_canon_gen of group inverse): for ANY builder state (arbitrary field texts; qualifier list satisfying the invariant every verified mutator keeps) whose build() -- hook relation + build_post -- succeeded with value g, parse_post applied to canon_spec(g) allows only Ok values with the same type, name, version and qualifier pairs, the namespace after dropping empty segments (sig_ns) and the subpath after dropping the segments that are empty, . or .. (sig_sub); for maven the namespace keeps a significant segment. The other clauses of the statement are the contracts of the functions themselves. Pieces: Proved (Verus): every setter sets its field and leaves every other field unchanged (frames => override and commutation), with_qualifier accepts exactly valid keys with the whole-content postcondition of insert, build() succeeds / fails as stated (build_post), Display == canon_spec. ALSO proved (group inverse): parsing canon_spec of normalised parts returns those parts (lemma_parse_canon), of arbitrary parts the significant segments (lemma_parse_canon_gen). CROSS-CHECK (bounded, compiled code): the same for parts that are not normalised (insignificant namespace / subpath segments set through the builder) and end to end on the compiled code -- all call sequences of length <= 2 / 3 over a value universe, and every scalar value in every field.'),
     'C10': dict(level='proof', groups=['builder', 'purl', 'lib_lower', 'pkgtype', 'cksum', 'c01', 'ckfix', 'lib_shape'], kani=[], bounded=['tokens:C10', 'scale:C10', 'spell:C10', 'builder', 'pkgrules'] + A,
         explanation='THEOREM (group c01, theorem_c10_plain + lemma_parsed_is_handed_out): for the built-in string shapes and every value that satisfies what C04 says of handed-out values (shown for parsed values from parse_post alone and for built values from the hook relation and build_post alone; the checksum text is a fixpoint by theorem_checksum_rebuild), build() applied to the value\'s own type and parts succeeds and returns the same type text, the very same parts and the same canonical string; theorem_c10_typed + lemma_built_is_handed_out_typed: the same for PackageType (the name already obeys the rule, so the hook changes nothing). Pieces: Proved (Verus): into_builder moves type and parts unchanged, build() = hook + generic clean-up (build_post), name rules are the specification functions lower_seq / pypi_norm, checksum text = canon_text. BOUNDED: idempotence of the whole pipeline on produced values -- every accepted T_N / S string and every built value is re-built and compared.'),
     'C11': dict(level='other', groups=['qual'], kani=['key_char'], bounded=['qualmap', 'preds'] + A,
